@@ -134,7 +134,7 @@ class StatementHybrids(Obligation):
     V01='https://in-toto.io/Statement/v0.1'
     def __init__(self,seed=0,known=(),**kw):
         self.seed=seed
-        self.bounds={'documents':'pure Naive, pure v0.1 (Link v0.2 predicate), the union of both member sets, each pure form plus one unknown member, the empty object','_type':['link',self.V01,'https://example.com/other'],
+        self.bounds={'documents':'pure Naive, pure v0.1 (Link v0.2 predicate), the union of both member sets, each pure form plus one unknown member, the empty object, and digest tables naming foreign hash algorithms (sha1, sha384, md5)','_type':['link',self.V01,'https://example.com/other'],
                      'leaves':'concrete (the free-leaf variants are in statement_consistency and the round-trip obligations)'}
         self.witnesses=['accepted_naive','accepted_v01','rejected_hybrid']; self.seen=set()
     def setup(self,eng,tier):
@@ -144,7 +144,11 @@ class StatementHybrids(Obligation):
         naive={'name':'n','materials':{},'products':{'p':{'sha256':'0a'}},'env':None,'command':[],'byproducts':bp}
         pred={'name':'n','materials':{},'env':None,'command':[],'byproducts':bp}
         v01={'subject':{'p':{'sha256':'0a'}},'predicateType':'https://in-toto.io/Link/v0.2','predicate':pred}
-        return [('naive',naive),('v01',v01),('hybrid',dict(naive,**v01)),('naive_plus_unknown',dict(naive,zz=1)),('v01_plus_unknown',dict(v01,zz=1)),('empty',{})]
+        # digest tables naming an algorithm the crate does not know: if such a document is accepted it must also come back out
+        naive_alg=dict(naive,materials={'m':{'sha1':'ab'}}); v01_alg=dict(v01,subject={'p':{'sha384':'0a','sha256':'0b'}})
+        pred_alg=dict(v01,predicate=dict(pred,materials={'m':{'md5':'ab'}}))
+        return [('naive',naive),('v01',v01),('hybrid',dict(naive,**v01)),('naive_plus_unknown',dict(naive,zz=1)),('v01_plus_unknown',dict(v01,zz=1)),('empty',{}),
+                ('naive_foreign_digest_algorithm',naive_alg),('v01_foreign_digest_algorithm',v01_alg),('predicate_foreign_digest_algorithm',pred_alg)]
     def entry(self,eng):
         from .C14 import py_to_value
         def go(run,args):
@@ -177,7 +181,9 @@ class StatementHybrids(Obligation):
         if st=='ok':
             variant=deref(val).vname
             pred='ok:'+variant
-            same=back!='ser_err' and back is not None and val_eq(back,v)
+            if back=='ser_err':
+                rec['viol']={'kind':'accepted_statement_cannot_be_serialised','known_key':None,'scenario':scn,'predicted':pred,'confirm':{'serialises':False},'what':'a statement document (%s) is accepted by the parser but the accepted value cannot be serialised again'%g['name']}; return rec
+            same=back is not None and val_eq(back,v)
             same_b=bool(same.v) if (same is not False and same is not True and same.conc()) else bool(same) if isinstance(same,bool) else None
             if sum(acc)>1:
                 rec['viol']={'kind':'statement_matches_several_versions','known_key':None,'scenario':scn,'predicted':pred,'confirm':{'reserialised_equal':False},'what':'a statement document (%s members, _type %s) is accepted under both statement versions'%(g['name'],g['type'])}; return rec
